@@ -111,6 +111,34 @@ def r1_concrete_tags(ctx):
         else:
             ctx.check(guarded[2], R, site, "inserted iff is_compatible(index.%s .., pattern_id)" % INDEX_SOURCE[v],
                       "the type id compared for ConcreteType::%s does not come from %s" % (v, INDEX_SOURCE[v]), b.loc(guarded[0]))
+    # row p of the IsType table is compute_compatible_concrete_types(p, ..) itself — not assembled from parts: the relation is decided for the WHOLE
+    # pattern type (a variant of a recursive union checked on its own loses the enclosing type on the cycle stack and accepts anything at `^`)
+    tcb = F.body("quiver_core::compatibility::compute_type_compatibility")
+    tfl = Flow(tcb, through_named=True)
+    tfl0 = Flow(tcb)
+    rows = 0
+    for bi, t in tcb.calls():
+        if not (t.get("callee") or "").endswith("IndexMut::index_mut") or len(t["args"]) < 2:
+            continue
+        if "HashSet<quiver_core::bytecode::ConcreteType" not in (tcb.local_ty(t["dest"]["l"]) or ""):
+            continue
+        idx = op_place(t["args"][1])
+        ref_l = t["dest"]["l"]
+        for b2, s2, st in tcb.stmts():
+            if st["k"] == "assign" and st["p"]["l"] == ref_l and st["p"]["pr"] and st["p"]["pr"][0][0] == "*" and st["rv"]["k"] == "use":
+                rows += 1
+                vp = op_place(st["rv"]["op"])
+                srcs = tfl.sources(vp["l"]) if vp else []
+                direct = bool(srcs) and all(x[0] == "call" and (x[2].get("callee") or "").endswith("compatibility::compute_compatible_concrete_types") for x in srcs)
+                same = False
+                if direct and idx:
+                    ib = tfl.backward({idx["l"]})
+                    same = all(op_place(x[2]["args"][0]) and (tfl.backward({op_place(x[2]["args"][0])["l"]}) & ib) for x in srcs)
+                ctx.check(direct and same, R, tcb.key + "|row=cct(row)", "type_compatibility[p] is the result of compute_compatible_concrete_types(p, ..) for the same p",
+                          "a row of the IsType table is no longer compute_compatible_concrete_types(<that pattern id>) itself (sources: %s): assembling it from "
+                          "parts decides the relation without the whole pattern type on the cycle stack" % sorted({(x[2].get("callee") or x[0]).split("::")[-1] if x[0] == "call" else x[0] for x in srcs}),
+                          tcb.loc(b2, s2))
+    ctx.floor(R, "IsType table row stores", rows, 1)
     # the runtime test consults the table with the value's concrete tag
     c = F.body(EXEC + "::check_type_compatible")
     flc = Flow(c)
@@ -302,8 +330,23 @@ def r4_remap_feeds_tables(ctx):
     c07.r2_index_fields(ctx, "R-C08-5")
 
 
+def r6_process_tag_function(ctx):
+    """the function id a process handle is tagged with (and classified by in IsType / mailbox filtering) is the process's ENTRY function — shared
+    with R-C13-4"""
+    from rules import c13
+    before = len(ctx.obs)
+    c13.r4_process_handle_identity(ctx)
+    for o in ctx.obs[before:]:
+        o["rule"] = "R-C08-6"
+    if "R-C13-4" in ctx.rules:
+        ctx.rules["R-C08-6"] = ctx.rules.pop("R-C13-4")
+    for f in ctx.floors:
+        if f["rule"] == "R-C13-4":
+            f["rule"] = "R-C08-6"
+
+
 def run(ctx):
-    ctx.run_rules([r1_concrete_tags, r2_tables_describe_whole_program, r3_update_program_replaces, r4_remap_feeds_tables])
+    ctx.run_rules([r1_concrete_tags, r2_tables_describe_whole_program, r3_update_program_replaces, r4_remap_feeds_tables, r6_process_tag_function])
     ctx.note("check_message_compatible's permissive default (unwrap_or(true)) applies only when a parameter table has no entry; recorded as an assumption")
     return (
         "Decides table-construction clauses: every runtime value kind has exactly its concrete tag; the table builder inserts each tag under "
